@@ -355,7 +355,9 @@ func c14Oracle(w *simWorld, homeWaits map[string]bool) (out []Violation) {
 		return nil
 	}
 	// Replies dropped because a bounded queue overflowed are documented overload behaviour, not lost replies.
-	overload := simLog.count("queue full") + simLog.count("queue2 full") + simLog.count("channel full") + simLog.count("queue is full")
+	// (a session cut off at its outbound queue limit - a slow long-polling or gRPC consumer - is logged as
+	// "outbound queue limit exceeded": what was queued for it is dropped)
+	overload := simLog.count("queue full") + simLog.count("queue2 full") + simLog.count("channel full") + simLog.count("queue is full") + simLog.count("outbound queue limit exceeded")
 	// (a) every subscribe / leave / delete request with an id was answered
 	for _, c := range w.Clients {
 		for _, s := range c.Sents {
